@@ -152,6 +152,31 @@ CLAIMED = {
             "sample, the selected sample, predict_proba per (probe, class index), the index of the predicted class and "
             "the order of classes_ with the first encoding.",
             "DESIGN.md 5 (C09)", TRUST),
+    "C11": ("TLA+ module Classify (decision layer: declared/sorted classes, frequencies + prior -> probabilities with "
+            "uniform fallback -> expected cost under the permuted cost matrix -> argmin -> decoding; sklearn-wrapper "
+            "column re-mapping and fallbacks) model-checked by TLC; TLC-generated cases replayed exactly into "
+            "ParzenWindowClassifier(metric='precomputed') and SklearnClassifier(DummyClassifier); ClassifyTrace also "
+            "monitors the numeric classifiers",
+            "TLC checks Simplex, Order, CostSemantics, PredictInClasses, PredictMinimisesCost, TieFair and "
+            "UniformNoLabels for all K<=3 class orders, seen subsets, frequency rows, priors and cost matrices in the "
+            "small scope; the cases are replayed under three label encodings into classifiers whose frequencies are "
+            "exact (precomputed-kernel Parzen window, prior dummy) - predict_freq, predict_proba as rationals, predict, "
+            "classes_ and cost_matrix_ must equal the specification - and the numeric classifiers (GaussianNB / "
+            "LogisticRegression wrappers with fit and partial_fit, kernel PWC, mixture model, sliding window, annotator "
+            "ensemble, annotator logistic regression) are monitored on fixed-point outputs: finite, non-negative, rows "
+            "summing to one, zero mass on unseen declared classes, uniform without labels, prediction of minimal cost "
+            "rank.",
+            "DESIGN.md 5 (C11)", TRUST + "; the numerics that produce the probabilities are not modelled (DESIGN 9)"),
+    "C15": ("TLA+ module Regress (case table over regressor kind x number of labels x prior class x flags with the "
+            "call protocol Fit/Dist/Predict/Sample) checked by TLC for totality and consistency; every case realised on "
+            "the real regressors and validated by RegressTrace",
+            "TLC checks that the requirement table is total, has no dead row and is consistent, and the protocol "
+            "invariants (Coherent, StdFinite, Fallback, SampleShape); each of the 78 cases is realised with several data "
+            "sets on NICKernelRegressor, NadarayaWatsonRegressor, SklearnRegressor and SklearnNormalRegressor and TLC "
+            "checks on band-encoded observations: predict equals the mean (std, entropy, tuple arity by flags) of "
+            "predict_target_distribution, std finite and non-negative where required, sample_y shape and "
+            "reproducibility, documented fallbacks.",
+            "DESIGN.md 5 (C15)", TRUST + "; the posterior numerics are not modelled (DESIGN 9)"),
 }
 
 NOT_YET = {}
